@@ -78,6 +78,11 @@ def known_comp_sbc_with_var_meta(case):
     return any(v.get('units') is not None for v in case['ins'] + case['outs'] if not v.get('const'))
 
 
+def known_0d_output_manual(case):
+    """A 0-d (shape ()) output together with manually declared partials (compute then runs through _IODict)."""
+    return bool(case.get('manual')) and any(len(o['shape']) == 0 for o in case['outs'])
+
+
 # ---------------------------------------------------------------------------------------------------------------
 # model construction
 # ---------------------------------------------------------------------------------------------------------------
@@ -289,6 +294,8 @@ def check(case):
             sig = core.repo_frame_signature(e, 'execcomp')
             if sig is None:
                 raise
+            if known_0d_output_manual(case) and "'float' object has no attribute 'shape'" in str(e):
+                sig = 'F-C14-3|compute-raises:0d-output-with-manual-partials'
             if known_comp_sbc_with_var_meta(case) and isinstance(e, RuntimeError) and 'incompatible with shape (1,)' in str(e):
                 sig = 'F-C14-2|setup-rejects:comp-shape_by_conn-dropped-for-var-with-metadata'
             res.fail(pre + sig, f"{mode}: {type(e).__name__}: {e}")
